@@ -7,6 +7,8 @@
 (*   snapS, snapG (0/1)                                                                    *)
 (*   path      = observed output, H x W of <<a,b>> (a + b sqrt2; <<-1,-1>> NaN; <<-2,-2>> no surd) *)
 (*   cs, cg    = <<py, px>> the cells the search was really started with (step model only)  *)
+(*   pix       = << <<py,px>>, <<py,px>> >> what _get_pixel_id answered for start and goal     *)
+(*               (step model only: compared with PixelId!Idx "round" and ScanNearest "infinit") *)
 (*   events    = one record per _min_cost_pixel_id call (interpreted mode; may be <<>>):     *)
 (*               open, closed (id lists), g (N surds), par (N ids), pop (id returned)       *)
 (* The PROPERTY is decided on the observed output only (Verdict): named cells by            *)
@@ -94,10 +96,24 @@ PopStep ==
                    ELSE pred' = [st |-> popped, amb |-> {}, alt |-> lg.parent]
   /\ l' = l + 1 /\ UNCHANGED tid
 
+\* the code's coordinate -> cell conversion and snapping against the algorithm models of PixelId.tla
+PixModel(pt) == <<Idx(YAx, pt[1], "round"), Idx(XAx, pt[2], "round")>>
+PixOK == Tr.pix[1] = PixModel(Tr.sp) /\ Tr.pix[2] = PixModel(Tr.gp)
+InGrid(rc) == rc[1] \in 0..Tr.H-1 /\ rc[2] \in 0..Tr.W-1
+SnapModel(rc, flag) ==
+  IF flag = 0 \/ ~InGrid(rc) THEN rc
+  ELSE LET k == ScanNearest(EA, rc[1] * Tr.W + rc[2], "infinit") IN
+       IF k = NONE THEN <<-1, -1>> ELSE <<k \div Tr.W, k % Tr.W>>
+\* _a_star_search is not called (cs = cg = <<-1,-1>>) when snapping found no start cell
+SnapOK == LET ms == SnapModel(Tr.pix[1], Tr.snapS)  mg == SnapModel(Tr.pix[2], Tr.snapG) IN
+          IF ms = <<-1, -1>> THEN Tr.cs = <<-1, -1>> ELSE Tr.cs = ms /\ Tr.cg = mg
+
 AllNaN == \A i \in 0..NC-1 : Path[i] = NAN
 Judge ==
   /\ phase \in {"run", "found"} /\ (HasEvents => l = Len(Tr.events) + 1)
-  /\ LET dr == IF ~HasEvents THEN "nosteps"
+  /\ LET dr == IF ~PixOK THEN "drift_pixel_id_is_not_round_half_up"
+               ELSE IF ~SnapOK THEN "drift_snap_is_not_first_nearest_scan"
+               ELSE IF ~HasEvents THEN "nosteps"
                ELSE IF drift # 0 THEN "drift_at_event_" \o ToString(drift)
                ELSE IF phase = "found" THEN
                     (IF ReconstructPath(EM, pred.st, CsId, CgId) = Path THEN "steps_ok" ELSE "drift_final_image")
